@@ -48,11 +48,17 @@ macro_rules! cobj {
                 Box::new($w(self.0.clone(), self.1))
             }
             fn counter(&self) -> u128 {
+                #[cfg(not(feature = "hooks"))]
+                let (a, b): ($word, $word) = unreachable!();
+                #[cfg(feature = "hooks")]
                 let (a, b) = self.0.verif_counter();
                 (a as u128) | ((b as u128) << $bits)
             }
             fn set_counter(&mut self, c: u128) {
-                self.0.verif_set_counter(c as $word, (c >> $bits) as $word)
+                #[cfg(feature = "hooks")]
+                self.0.verif_set_counter(c as $word, (c >> $bits) as $word);
+                #[cfg(not(feature = "hooks"))]
+                let _ = c;
             }
             fn finalize(self: Box<Self>) -> Vec<u8> {
                 let mut out = vec![0u8; self.1];
@@ -138,6 +144,10 @@ impl Scenario for CtrWrap {
     }
 
     fn execute(&self, t: &Trace, obs: &mut Obs) -> Result<(), Violation> {
+        if !crate::scn::streams::HOOKS {
+            obs.hit("skipped.hooks_unavailable");
+            return Ok(());
+        }
         let (vi, &(name, b, maxk, bits)) = match W_VARIANTS.iter().enumerate().find(|(_, v)| v.0 == t.variant) {
             Some(x) => x,
             None => return Ok(()),
@@ -270,10 +280,16 @@ macro_rules! lobj {
                 Box::new($w(self.0.clone()))
             }
             fn len(&self) -> u128 {
-                self.0.verif_processed_bytes()
+                #[cfg(feature = "hooks")]
+                return self.0.verif_processed_bytes();
+                #[cfg(not(feature = "hooks"))]
+                unreachable!()
             }
             fn set_len(&mut self, n: u128) {
-                self.0.verif_set_processed_bytes(n)
+                #[cfg(feature = "hooks")]
+                self.0.verif_set_processed_bytes(n);
+                #[cfg(not(feature = "hooks"))]
+                let _ = n;
             }
             fn finalize_reset(&mut self) -> Vec<u8> {
                 self.0.finalize_reset().to_vec()
@@ -363,6 +379,10 @@ impl Scenario for LenWrap {
         t
     }
     fn execute(&self, t: &Trace, obs: &mut Obs) -> Result<(), Violation> {
+        if !crate::scn::streams::HOOKS {
+            obs.hit("skipped.hooks_unavailable");
+            return Ok(());
+        }
         let (vi, &(name, b, dom)) = match L_VARIANTS.iter().enumerate().find(|(_, v)| v.0 == t.variant) {
             Some(x) => x,
             None => return Ok(()),
